@@ -2379,8 +2379,10 @@ is_equal(const CPPDeclaration *other) const {
       *_u._op._op2 == *ot->_u._op._op2;
 
   case T_trinary_operation:
+    // All three operands, as in is_less(): "c ? a : b" is not "c ? a : d".
     return *_u._op._op1 == *ot->_u._op._op1 &&
-      *_u._op._op2 == *ot->_u._op._op2;
+      *_u._op._op2 == *ot->_u._op._op2 &&
+      *_u._op._op3 == *ot->_u._op._op3;
 
   case T_literal:
     return *_u._literal._value == *ot->_u._literal._value &&
